@@ -39,7 +39,7 @@ fn main() {
             let _ = std::fs::remove_file(t.join("vout/events.ndjson"));
             std::fs::write(t.join("script.json"), json!({"berror": "none", "launch": "yes", "storeout": "yes", "store_counter": b, "bsbom": ["cdx.json"], "lsbom": [],
                 "layer_steps": steps, "layer_seed": r.u64(..), "exec_src": t.join("exec-src")}).to_string()).unwrap();
-            let o = Command::new(t.join("bp/bin/build")).arg(&layers).arg(t.join("platform")).arg(t.join("plan.toml")).current_dir(t.join("app")).env_clear()
+            let o = Command::new(t.join("bp/bin/build")).arg(&layers).arg(t.join("platform")).arg(t.join("plan.toml")).current_dir(t.join("app")).env_clear().envs(std::env::var_os("LLVM_PROFILE_FILE").map(|v| ("LLVM_PROFILE_FILE", v)))
                 .env("VBP_SCRIPT", t.join("script.json")).env("VBP_OUT", t.join("vout")).env("CNB_BUILDPACK_DIR", t.join("bp"))
                 .env("CNB_TARGET_OS", "linux").env("CNB_TARGET_ARCH", "amd64").env("CNB_TARGET_DISTRO_NAME", "ubuntu").env("CNB_TARGET_DISTRO_VERSION", "24.04")
                 .output().expect("vbp");
